@@ -9,6 +9,7 @@ def genCfg : Cfg :=
     maxBody := IpcHub.Gen.bodyLimit
     bodyErrReturned := IpcHub.Gen.bodyErrReturned
     unknownChanPacket := IpcHub.Gen.unknownChannelReturnsPacket
+    badHeaderPacket := IpcHub.Gen.badHeaderReturnsPacket
     rtpRecover := IpcHub.Gen.rtpUnmarshalRecovers
     fieldNames := IpcHub.Gen.canonicalFieldNames.map ascii }
 
